@@ -868,10 +868,12 @@ class Polyhedron(Shape3D):
         # Handle zeros q vector cases up front to allow looping over faces without
         # double checking internally.
         q_sqs = np.sum(q * q, axis=-1)
-        # "Zero" relative to the size of the shape (|q| L < 1e-6); to that order the
-        # amplitude is the volume times the phase of the centroid.
+        # "Zero" relative to the size of the shape (|q| L < 1e-4); to that order the
+        # amplitude is the volume times the phase of the centroid (relative error below
+        # 1e-8). Just above a smaller threshold the face sum below loses that much and
+        # more to cancellation (its rounding error grows like 1e-16 / (|q| L)^2).
         extent = np.max(np.ptp(self.vertices, axis=0))
-        zero_q = q_sqs * extent**2 < 1e-12
+        zero_q = q_sqs * extent**2 < 1e-8
         form_factor[zero_q] = self.volume * np.exp(
             -1j * np.dot(q[zero_q], self.centroid)
         )
